@@ -22,6 +22,7 @@ package patterns
 import (
 	"bytes"
 	"errors"
+	"math"
 	"strings"
 
 	"github.com/snapcore/snapd/logger"
@@ -132,7 +133,13 @@ func (n seq) NumVariants() int {
 	num := 1
 
 	for i := range n {
-		num *= n[i].NumVariants()
+		v := n[i].NumVariants()
+		if v != 0 && num > math.MaxInt/v {
+			// saturate rather than wrap around: the count is compared
+			// against a limit
+			return math.MaxInt
+		}
+		num *= v
 	}
 
 	return num
@@ -274,7 +281,12 @@ func (n alt) NumVariants() int {
 	num := 0
 
 	for i := range n {
-		num += n[i].NumVariants()
+		v := n[i].NumVariants()
+		if num > math.MaxInt-v {
+			// saturate rather than wrap around
+			return math.MaxInt
+		}
+		num += v
 	}
 
 	return num
